@@ -151,6 +151,16 @@ class OsTheory:
                          "T-os: relpath")
             return pyops.mk_str(r)
 
+        def p_commonprefix(I, a, k):
+            items = I.iter_concrete(a[0])
+            if len(items) != 2:
+                raise Unsupported("commonprefix of other than two paths")
+            b, f = self.sz(I, items[0]), self.sz(I, items[1])
+            r = z3.Function("os.commonprefix2", STR, STR, STR)(b, f)
+            I.ctx.assume(z3.And(z3.PrefixOf(r, b), z3.PrefixOf(r, f), (r == b) == z3.PrefixOf(b, f)),
+                         "T-os: commonprefix is the CHARACTER-wise longest common prefix")
+            return pyops.mk_str(r)
+        M["os.path.commonprefix"] = p_commonprefix
         M["os.path.join"] = p_join
         M["os.path.isabs"] = p_isabs
         M["os.path.realpath"] = p_realpath
